@@ -50,6 +50,7 @@ func c20Truncate(b *core.B, s string, size int, trail string, viaTemplate bool) 
 		out = res.Out
 	} else {
 		pan := core.Guard(func() { out = ptext.Truncate(s, hctx.Map{"size": size, "trail": trail}) })
+		c20Keep(b, fmt.Sprintf("Truncate(%q, %d, %q)", s, size, trail), out)
 		if pan != nil {
 			b.Violate(pan.Sig(), pan.Value)
 			return
@@ -88,6 +89,7 @@ func c20HTML(b *core.B, s string) {
 	var out string
 	var err error
 	pan := core.Guard(func() { out, err = escapes.HTMLEscape(s, nil) })
+	c20Keep(b, fmt.Sprintf("HTMLEscape(%q)", s), out)
 	if pan != nil {
 		b.Violate(pan.Sig(), pan.Value)
 		return
@@ -129,6 +131,7 @@ func jsUnescapedHazard(out string) string {
 func c20JS(b *core.B, s string) {
 	var out string
 	pan := core.Guard(func() { out = escapes.JSEscape(s) })
+	c20Keep(b, fmt.Sprintf("JSEscape(%q)", s), out)
 	if pan != nil {
 		b.Violate(pan.Sig(), pan.Value)
 		return
@@ -191,6 +194,56 @@ func c20JSONVal(r *core.Rng, d int) interface{} {
 	}
 }
 
+// A result is a value: what a helper returned stays what it was, whatever is called later.
+// c20Keep remembers a result and a copy of its bytes; c20KeptCheck compares them.
+type c20KeptResult struct{ what, got, copy string }
+
+var c20Kept []c20KeptResult
+
+func c20Keep(b *core.B, what, got string) {
+	if len(got) == 0 {
+		return
+	}
+	c20Kept = append(c20Kept, c20KeptResult{what, got, string(append([]byte(nil), got...))})
+	if len(c20Kept) >= 64 {
+		c20KeptCheck(b)
+	}
+}
+
+func c20KeptCheck(b *core.B) {
+	for _, k := range c20Kept {
+		b.Count("results-looked-at-again-after-later-calls")
+		if k.got != k.copy {
+			b.Violate("result-changed-by-later-calls|"+strings.SplitN(k.what, "(", 2)[0], fmt.Sprintf("%s returned %q; after up to 64 later calls the same string reads %q", k.what, k.copy, k.got))
+			break
+		}
+	}
+	c20Kept = c20Kept[:0]
+}
+
+// c20JSONKept: two results held in variables of one template.
+func c20JSONKept(b *core.B, va, vb interface{}) {
+	ctx := plush.NewContext()
+	ctx.Set("a", va)
+	ctx.Set("b", vb)
+	res := render(b, "<% let x = toJSON(a) %><% let y = toJSON(b) %><% let z = toJSON([b, a]) %><%= x %>\x01<%= y %>", ctx)
+	if res.Pan != nil || res.Err != nil {
+		return
+	}
+	parts := strings.Split(res.Out, "\x01")
+	if len(parts) != 2 {
+		b.Violate("toJSON|kept-results", fmt.Sprintf("%q", res.Out))
+		return
+	}
+	for i, v := range []interface{}{va, vb} {
+		var back interface{}
+		if err := json.Unmarshal([]byte(parts[i]), &back); err != nil || !reflect.DeepEqual(normJSON(back), normJSON(v)) {
+			b.Violate("toJSON|result-changed-by-later-calls", fmt.Sprintf("toJSON(a), toJSON(b) kept in variables, a third call made, then printed: a = %#v, b = %#v, printed %q", va, vb, res.Out))
+			return
+		}
+	}
+}
+
 func c20JSON(b *core.B, v interface{}, viaTemplate bool) {
 	var out string
 	if viaTemplate {
@@ -211,6 +264,7 @@ func c20JSON(b *core.B, v interface{}, viaTemplate bool) {
 			h, e := encoders.ToJSON(v)
 			out, err = string(h), e
 		})
+		c20Keep(b, fmt.Sprintf("ToJSON(%#v)", v), out)
 		if pan != nil {
 			b.Violate(pan.Sig(), pan.Value)
 			return
@@ -370,14 +424,21 @@ func c20Run(b *core.B) {
 		c20JSON(b, v, i%4 == 0 && v != nil)
 		b.NonTrivialStr(fmt.Sprintf("%#v", v))
 		b.Count("toJSON")
+		if i%8 == 1 {
+			if w := c20JSONVal(r, 3); v != nil && w != nil {
+				c20JSONKept(b, v, w)
+				b.Count("toJSON:two-results-kept-in-one-template")
+			}
+		}
 	}
+	c20KeptCheck(b)
 }
 
 func init() {
 	core.Register(&core.Prop{
 		ID:         "C20",
 		Level:      "exploration",
-		Rule:       "truncate: every string of length <= 5 over {a, é, U+0301, 0xff} x size in [-2, 8] x 6 trails (exhaustive), random strings of length <= 64 over ASCII / multi-byte / combining / emoji / invalid UTF-8 x size in [-2, 70] x trails of length <= 8, called directly and through a template; predicates: at most size characters => unchanged, otherwise a byte prefix of s ending on a character boundary + trail and at most max(size, len(trail)) characters. htmlEscape / jsEscape / raw: every string of length <= 3 over a 16-symbol hostile alphabet (exhaustive) plus random byte strings: no raw < > ' \" and every & opens an entity; no < > & = and no quote or line break (LF, CR, U+2028, U+2029) outside a backslash escape; raw(s) byte-identical through a template. toJSON: values from a recursive generator (nil, bool, finite floats incl. extremes, strings with < > & U+2028 quotes control characters, arrays, string-keyed maps, depth <= 4), directly and through a template: json.Valid, decodes back to the value, no raw < > &. Non-trivial for truncate = the string is longer than size.",
+		Rule:       "truncate: every string of length <= 5 over {a, é, U+0301, 0xff} x size in [-2, 8] x 6 trails (exhaustive), random strings of length <= 64 over ASCII / multi-byte / combining / emoji / invalid UTF-8 x size in [-2, 70] x trails of length <= 8, called directly and through a template; predicates: at most size characters => unchanged, otherwise a byte prefix of s ending on a character boundary + trail and at most max(size, len(trail)) characters. htmlEscape / jsEscape / raw: every string of length <= 3 over a 16-symbol hostile alphabet (exhaustive) plus random byte strings: no raw < > ' \" and every & opens an entity; no < > & = and no quote or line break (LF, CR, U+2028, U+2029) outside a backslash escape; raw(s) byte-identical through a template. toJSON: values from a recursive generator (nil, bool, finite floats incl. extremes, strings with < > & U+2028 quotes control characters, arrays, string-keyed maps, depth <= 4), directly and through a template: json.Valid, decodes back to the value, no raw < > &. Results are values: every result of a direct call is looked at again after up to 64 later calls (byte-identical to a copy made at once), and two toJSON results kept in variables of one template decode to their values after a third call. Non-trivial for truncate = the string is longer than size.",
 		Assume:     []string{"a character is a Unicode code point as counted by []rune conversion (invalid bytes count one each)", "entity-agnostic reading of 'contains none of < > & ' \"': & may only open an entity"},
 		Batches:    batchesQT(16, 64),
 		Run:        c20Run,
